@@ -110,6 +110,15 @@ def ln_axioms(points):
                 sp.add(z3.Implies(p == q, _LN(p) == _LN(q)))
 
 
+def sqrt_uf(x):
+    """SQRT as a bare uninterpreted function (no axioms): for harnesses that compare radicands."""
+    with NoTracing():
+        if isinstance(x, (int, float)) and not hasattr(x, 'var'):
+            import math
+            return math.sqrt(x)
+        return _sym(_SQRT(zv(x)))
+
+
 def sqrt(x):
     with NoTracing():
         if isinstance(x, (int, float)) and not hasattr(x, 'var'):
